@@ -16,6 +16,7 @@ N2  `x = a if c else b`  ->  `if c: x = a` / `else: x = b`   (conditional expres
     also when it is the first-evaluated operand of the right-hand side:  `x = (a if c else b) > 0`).
 N3  `x = []` ; `for T in IT: x.append(E)`  ->  `x = [E for T in IT]`   (the loop spelling of a list comprehension).
 N4  `A[k] = A[k] + e`  ->  `A[k] += e`   (read-modify-write of one array cell; never for plain names, where the two differ).
+N5  `if c: r = A` / `else: r = B` ; `return r`  ->  `return A` / `return B`   (one result variable returned at the end of the function).
 
 Nothing else is rewritten; line numbers of the surviving nodes are kept, inlined statements carry the line of the call.
 """
@@ -539,6 +540,59 @@ def cell_augassign(node: ast.AST) -> ast.AST:
     return _CellAugAssign().visit(node)
 
 
+# --------------------------------------------------------------------------------------------- N5
+
+def _result_variable_to_returns(tree: ast.Module) -> None:
+    """`if c: ...; r = A` / `else: ...; r = B` immediately followed by `return r`  ->  `return A` / `return B` in the arms,
+    when every arm of the if/elif/else chain ends by assigning the bare name r (or already leaves by return / raise), the chain
+    has a final else, and r is not read inside the chain.  The two spellings are the same function."""
+    def arms_end_ok(st: ast.If, r: str) -> bool:
+        for arm in (st.body, st.orelse):
+            if not arm:
+                return False
+            last = arm[-1]
+            if isinstance(last, (ast.Return, ast.Raise)):
+                continue
+            if isinstance(last, ast.If) and arm is st.orelse and len(arm) == 1:
+                if not arms_end_ok(last, r):
+                    return False
+                continue
+            if isinstance(last, ast.If):
+                if not arms_end_ok(last, r):
+                    return False
+                continue
+            if not (isinstance(last, ast.Assign) and len(last.targets) == 1 and isinstance(last.targets[0], ast.Name) and last.targets[0].id == r):
+                return False
+        return True
+
+    def rewrite(st: ast.If, r: str) -> None:
+        for arm in (st.body, st.orelse):
+            last = arm[-1]
+            if isinstance(last, ast.If):
+                rewrite(last, r)
+            elif isinstance(last, ast.Assign):
+                arm[-1] = ast.copy_location(ast.Return(value=last.value), last)
+
+    for fn in ast.walk(tree):
+        if not isinstance(fn, ast.FunctionDef):
+            continue
+        body = fn.body
+        if len(body) < 2:
+            continue
+        ret, chain = body[-1], body[-2]
+        if not (isinstance(ret, ast.Return) and isinstance(ret.value, ast.Name) and isinstance(chain, ast.If)):
+            continue
+        r = ret.value.id
+        if not arms_end_ok(chain, r):
+            continue
+        reads = [n for n in ast.walk(chain) if isinstance(n, ast.Name) and n.id == r and isinstance(n.ctx, ast.Load)]
+        if reads:
+            continue
+        # r must not be assigned before the chain with a value that matters (it is overwritten on every path anyway)
+        rewrite(chain, r)
+        body.pop()
+
+
 def normalise(tree: ast.Module, modname: str) -> List[str]:
     if os.environ.get("GBSA_NO_NORMALIZE"):
         return []
@@ -546,5 +600,6 @@ def normalise(tree: ast.Module, modname: str) -> List[str]:
     _IfExpAssign().visit(tree)
     _loop_append_to_comprehension(tree)
     _CellAugAssign().visit(tree)
+    _result_variable_to_returns(tree)
     ast.fix_missing_locations(tree)
     return notes
